@@ -107,7 +107,10 @@ def ground_truth(args, truth_file):
 
         effect.update(
             map(
-                lambda filename: _conform_filename(
+                lambda filename: (path.realpath(path.expanduser(filename)), False)
+                if path.realpath(path.expanduser(filename))
+                == path.realpath(path.expanduser(truth_file))
+                else _conform_filename(
                     filename=filename,
                     search=search,
                     emit_func=emit_func,
